@@ -518,6 +518,7 @@ def run(ctx: Ctx):
 _F = "urwid/widget/edit.py"
 _N = "urwid/numedit.py"
 MUTANTS = [
+    Mut("twin-typed-text-encode-keywords", "urwid/widget/edit.py", "Edit.keypress", "key = key.encode(get_encoding(), \"replace\")", "key = key.encode(encoding=get_encoding(), errors=\"replace\")", twin=True),
     Mut("bytes-edit-inserts-utf8", "urwid/widget/edit.py", "Edit.keypress", "key = key.encode(get_encoding(), \"replace\")", "key = key.encode(\"utf-8\")", "KIND|widget.edit.Edit.keypress|keypress: fixed codec utf-8 for edit text"),
     Mut("shift-line-keeps-cancelled-padding", "urwid/text_layout.py", "shift_line", "        if amount:\n            return [(amount, None)] + segs[1:]\n        return segs[1:]\n", "        if amount:\n            segs = segs[1:]\n", "PASS|text_layout.shift_line|folded padding segment kept in the result"),
     Mut("twin-shift-line-tail-variable", "urwid/text_layout.py", "shift_line", "        if amount:\n            return [(amount, None)] + segs[1:]\n        return segs[1:]\n", "        rest = segs[1:]\n        if amount:\n            return [(amount, None), *rest]\n        return rest\n", twin=True),
